@@ -236,6 +236,10 @@ func (x *e2e) call(m reflect.Method, pe *tlx.Entry, d *tlschema.Def, wantVal ref
 		// bad_server_salt and the client sends it again by itself; the caller must notice nothing
 		id += "|after-salt-rejection"
 		kind += "|after-salt-rejection"
+		if !x.quiesce() {
+			x.run.Count("salt_rejection_calls_not_judged", 1)
+			return
+		}
 		x.salt++
 		x.srv.RotateBefore = map[int]int64{x.srv.EncFrames() + 1: x.salt}
 	}
@@ -387,6 +391,10 @@ func (x *e2e) overlap(m reflect.Method, pe *tlx.Entry, wire []byte) {
 	if e1 != nil || e2 != nil || bytes.Equal(aReq, bReq) {
 		return // no arguments to tell the calls apart
 	}
+	if !x.quiesce() {
+		run.Count("overlapping_calls_not_judged", 1)
+		return
+	}
 	var executed [][]byte
 	x.srv.OnRequest = func(msgID int64, body []byte) []byte {
 		executed = append(executed, append([]byte{}, body...))
@@ -523,6 +531,20 @@ func convertible(want, got reflect.Value) reflect.Value {
 		return s
 	}
 	return want
+}
+
+// quiesce waits until the reading routine is back in Read with nothing pending: it has then written the
+// acknowledgement of the previous answer, so the next frame the server sees is the next request (the salt
+// rotation of the following case is placed "before the next frame").
+func (x *e2e) quiesce() bool {
+	deadline := time.Now().Add(5 * time.Second)
+	for time.Now().Before(deadline) {
+		if x.connIdle() {
+			return true
+		}
+		time.Sleep(100 * time.Microsecond)
+	}
+	return false
 }
 
 func (x *e2e) connIdle() bool {
